@@ -19,7 +19,7 @@ def handle (args : List String) (_impl : List String) : String :=
       if n = 0 ∨ v < 0 then "bad-op" else
       let slack := pow2 (-30) * maxQ 1 (absQ target)
       if withinSigmas k est target (v / (n : Q)) slack then "ok"
-      else s!"bad simulation {what}: the mean of {n} draws, {fmtRat est}, is more than {fmtRat k} standard deviations away from {fmtRat target}"
+      else s!"bad simulation {what}: the mean of {n} draws, {fmtApprox est}, is more than {fmtApprox k} standard deviations away from {fmtApprox target} (exact: {fmtRat est} vs {fmtRat target})"
     | _, _, _, _, _ => "bad-op"
   | ["mc", "cov", what, n, k, est, cxy, cxx, cyy] =>
     match n.toNat?, parseQ? k, parseQ? est, parseQ? cxy, parseQ? cxx, parseQ? cyy with
@@ -27,7 +27,7 @@ def handle (args : List String) (_impl : List String) : String :=
       if n = 0 ∨ cxx < 0 ∨ cyy < 0 then "bad-op" else
       let slack := pow2 (-20) * maxQ 1 (maxQ (absQ cxx) (absQ cyy))
       if withinSigmas k est cxy (gaussCovVar cxy cxx cyy n) slack then "ok"
-      else s!"bad simulation {what}: the covariance estimated on {n} realisations, {fmtRat est}, is more than {fmtRat k} standard deviations away from the model value {fmtRat cxy}"
+      else s!"bad simulation {what}: the covariance estimated on {n} realisations, {fmtApprox est}, is more than {fmtApprox k} standard deviations away from the model value {fmtApprox cxy} (exact: {fmtRat est} vs {fmtRat cxy})"
     | _, _, _, _, _, _ => "bad-op"
   | ["mc", "range", what, strict, lo, hi, omin, omax] =>
     match parseQ? lo, parseQ? hi, parseQ? omin, parseQ? omax with
